@@ -440,6 +440,58 @@ pub fn exhaustive_sequences(nv: usize, len: usize, sample_every: usize, out: &mu
     out.push(json!({"kind": "stat", "id": format!("exhaustive-sequences-nv{}-len{}", nv, len), "sequences": total, "flagged": flagged, "emitted": emitted}));
 }
 
+/// A store that was filled over a channel (the streaming mirror) and is then used as a store of its own: it receives the producer's
+/// nodes, may create a literal of its own before the documented repair step, is repaired, and carries on with ordinary operations.
+/// Every state after the repair is audited like any other store state (C06 / C07 / C13); needs the frontend feature.
+#[cfg(feature = "frontend")]
+fn seq_mirror(rng: &mut StdRng, id: String, len: usize, out: &mut Vec<Value>) {
+    let nv = rng.gen_range(3..=5usize);
+    let (s, r) = crossbeam_channel::unbounded();
+    let mut prod = Bdd::with_sender(s);
+    // the producer leaves one variable out most of the time: the mirror may then create that literal itself
+    let skip = if rng.gen_bool(0.7) { Some(rng.gen_range(0..nv)) } else { None };
+    for v in 0..nv {
+        if Some(v) != skip { prod.variable(Var(v)); }
+    }
+    let mut scratch = Rec { out: Vec::new(), seq: id.clone(), step: 0 };
+    for _ in 0..rng.gen_range(4..=14) {
+        rand_op_vars(rng, &mut prod, nv, skip, &mut scratch);
+    }
+    let mut mirror = Bdd::with_receiver(r);
+    mirror.recv(Term(prod.nodes.len() + 3));
+    let before = rng.gen_bool(0.6);
+    if before {
+        if let Some(v) = skip { mirror.variable(Var(v)); }
+    }
+    mirror.fix_import();
+    out.push(json!({"kind": "reset", "id": id, "nv": nv, "src": "mirror", "created_before_repair": before && skip.is_some(),
+                    "nodes": nodes_json(&mirror), "dump": dump_json(&mirror), "feat": features_json()}));
+    let mut rec = Rec { out: Vec::new(), seq: id.clone(), step: 0 };
+    for i in 0..len {
+        rand_op(rng, &mut mirror, nv, &mut rec, i + 1 == len);
+    }
+    out.append(&mut rec.out);
+}
+
+/// like rand_op, never mentioning the variable `skip`, nothing recorded (the producer side of seq_mirror)
+#[cfg(feature = "frontend")]
+fn rand_op_vars(rng: &mut StdRng, bdd: &mut Bdd, nv: usize, skip: Option<usize>, _rec: &mut Rec) {
+    let a = rand_handle(rng, bdd);
+    let b = rand_handle(rng, bdd);
+    match rng.gen_range(0..7) {
+        0 => { bdd.and(a, b); }
+        1 => { bdd.or(a, b); }
+        2 => { bdd.xor(a, b); }
+        3 => { bdd.iff(a, b); }
+        4 => { bdd.imp(a, b); }
+        5 => { bdd.not(a); }
+        _ => {
+            let v = rng.gen_range(0..nv);
+            if Some(v) != skip { bdd.restrict(a, Var(v), rng.gen_bool(0.5)); }
+        }
+    }
+}
+
 /// sequences on the store of a compiled ADF (native or bridge), with semantics calls warming the caches
 fn seq_adf(rng: &mut StdRng, id: String, len: usize, out: &mut Vec<Value>) {
     let n = rng.gen_range(2..=5);
@@ -543,10 +595,14 @@ pub fn main(args: &[String]) {
             0 | 1 => seq_fresh(&mut rng, format!("f{}", k), len, &mut recs, k % 8 == 1),
             _ => seq_adf(&mut rng, format!("a{}", k), len.min(14), &mut recs),
         }
+        #[cfg(feature = "frontend")]
+        if k % 5 == 4 {
+            seq_mirror(&mut rng, format!("m{}", k), len.min(12), &mut recs);
+        }
     }
     // long sequences on large stores, spread over the trace
     {
-        let nbig = if nseq.is_some() { 5 } else if tier == "thorough" { 150 } else { 16 };
+        let nbig = if nseq.is_some() { 12 } else if tier == "thorough" { 150 } else { 16 };
         let mut bigs: Vec<Value> = Vec::new();
         for k in 0..nbig {
             seq_big(&mut rng, format!("B{}", k), &mut bigs);
